@@ -32,6 +32,7 @@ import (
 	banktypes "github.com/cosmos/cosmos-sdk/x/bank/types"
 	distrtypes "github.com/cosmos/cosmos-sdk/x/distribution/types"
 	govv1 "github.com/cosmos/cosmos-sdk/x/gov/types/v1"
+	upgradetypes "github.com/cosmos/cosmos-sdk/x/upgrade/types"
 	govv1beta1 "github.com/cosmos/cosmos-sdk/x/gov/types/v1beta1"
 	sdkvesting "github.com/cosmos/cosmos-sdk/x/auth/vesting/types"
 	stakingtypes "github.com/cosmos/cosmos-sdk/x/staking/types"
@@ -281,6 +282,16 @@ func chainTx(n *Node, contracts *[]common.Address, t M) ([]byte, error) {
 			msgs = append(msgs, &evmtypes.MsgUpdateParams{Authority: gov.String(), Params: params})
 		}
 		msg, err := govv1.NewMsgSubmitProposal(msgs, sdk.NewCoins(coin("5000")), from.Addr.String(), "", "t", "s")
+		if err != nil {
+			return nil, err
+		}
+		return cosmos(800000, msg)
+	case "gov_upgrade":
+		// a software-upgrade proposal: the named upgrade handler of this binary runs at the plan height
+		gov := authtypes.NewModuleAddress("gov")
+		up := &upgradetypes.MsgSoftwareUpgrade{Authority: gov.String(),
+			Plan: upgradetypes.Plan{Name: str(t, "name"), Height: n.Header.Height + num(t, "delta", 3)}}
+		msg, err := govv1.NewMsgSubmitProposal([]sdk.Msg{up}, sdk.NewCoins(coin("5000")), from.Addr.String(), "", "t", "s")
 		if err != nil {
 			return nil, err
 		}
